@@ -94,6 +94,7 @@ harness!(it_iter__s8_8g4_c2, it_iter, S8_8G4, 2);
 harness!(it_iter__s8_8g4_c9, it_iter, S8_8G4, 9);
 harness!(it_iter__s8_e_c1, it_iter, S8_E, 1);
 harness!(it_iter__s16_8_c4, it_iter, S16_8, 4);
+harness!(it_iter__s8m0_4a_c1, it_iter, S8M0_4A, 1);
 
 fn it_keys_values(sh: Shape) {
     let m = build_kv(sh, 1);
@@ -318,3 +319,4 @@ harness!(it_drain__u8_3t_j1, it_drain, U8_3T, (1, false));
 harness!(it_drain__u8_3t_endf, it_drain, U8_3T, (END, true));
 harness!(it_drain__s8_e_j1, it_drain, S8_E, (1, false));
 harness!(it_drain__s8_e_end, it_drain, S8_E, (END, false));
+harness!(it_drain__s8m0_4a_j1, it_drain, S8M0_4A, (1, false));
